@@ -202,6 +202,24 @@ def run(prog, rep, tier):
             if okg:
                 r = body.reachable(some, removed_blocks=[e2.idx], removed_edges=[(guard[0], guard[1])])
                 skip = n.idx in r
+            elif guard is None and some is not None:
+                # `map.into_iter().filter(|(id, _)| !done.contains(id))`: the test sits in the filter closure -- it keeps exactly the ids that are not
+                # in the done list -- and every element that comes out of the iterator is ended
+                from ..core import _FakeOp
+                for fc_ in [body.blocks[c_] for c_ in no.calls if body.blocks[c_].term.cmethod == 'filter' and body.blocks[c_].term.ctrait == 'std::iter::Iterator']:
+                    ce_ = expr_of(body, fc_.term.args[1]) if len(fc_.term.args) == 2 else ('unknown',)
+                    if ce_[0] != 'agg' or ce_[3].j.get('agg') != 'closure':
+                        continue
+                    C_ = prog.body('mla', ce_[3].j['closure'])
+                    caps_ = closure_captures(prog, body, C_) if C_ is not None else None
+                    if not caps_:
+                        continue
+                    cts_ = [b_ for b_ in C_.calls() if b_.term.cmethod == 'contains']
+                    cap_done = any(op_.place is not None and origins(body, [op_.place[0]], through_calls=False).locals & done_vecs for op_ in caps_)
+                    pol_ = comparison_polarity(C_, expr_of(C_, _FakeOp((0, ()))))
+                    if len(cts_) == 1 and cap_done and pol_ is not None and pol_[0] == cts_[0].idx and pol_[2] is False:
+                        okg = True
+                        skip = n.idx in body.reachable(some, removed_blocks=[e2.idx])
             okc = okmap and okg and not skip
             msg = 'every id of the open-file map that is not in the done list is ended' if okc else \
                 'the clean-up loop can skip end_file for a file that was not completed (map=%s guard=%s skip=%s)' % (okmap, okg, skip)
